@@ -572,6 +572,6 @@ def run(rep):
         "the item search (ItemCodeBlock::get_item_code) is modelled by its located offsets (attribute start/end, impl end), checked per case against the generator's ground truth; syn::parse_str equality inside it is not modelled",
         "generated code inside the inserted block is a parameter of the assembly model (its content belongs to C05-C15); un-commenting and compiling the block is not run",
         "source files outside the known-finding input classes: " + ", ".join(n for n, _ in G.CLASSES) + ", doc-comment-on-impl (each replayed separately); the repaired classes char-blank-or-comma, char-escaped-quote, attr-directly-followed, file-list-trailing-comma, edit-file-trailing-comma are part of every corpus and replayed as regression inputs",
-        "family-level write-to-file is covered only at the surgery level (attribute texts), not end to end (family edit parsing is F7 / C15)",
+        "family-level write-to-file is covered at the surgery level (attribute texts) and end to end on four fixed family witnesses (family edit parsing is F7 / C15)",
         "line terminators: CRLF input is compared after CRLF->LF normalisation, a final terminator may be dropped",
     ]
